@@ -29,6 +29,25 @@ class R:
   def __rmul__(self, o): return 'r'
   def __rsub__(self, o): return 'r'
 def fn(a): return a
+class RA:
+  p = 1
+class RB:
+  q = 1
+class U1:
+  def __add__(self, o): return RA()
+  def __sub__(self, o): return RA()
+class U2(U1):
+  def __radd__(self, o): return RB()
+  def __rsub__(self, o): return RB()
+class U3:
+  def __radd__(self, o): return RB()
+class U4(U3):
+  def __radd__(self, o): return RA()
+class MyInt(int):
+  def __radd__(self, o): return RB()
+class G:
+  def __init__(self): self._t = 1
+  def __getattr__(self, n): return getattr(self._t, n)
 '''
 
 # (expression, kind) kind: builtin value / user instance / callable
@@ -37,7 +56,11 @@ OPERANDS = [
     ("[1]", "b"), ("(1, 'a')", "b"), ("{'k': 1}", "b"), ("{1}", "b"), ("frozenset([1])", "b"), ("range(3)", "b"),
     ("[]", "b"), ("{}", "b"), ("()", "b"), ("'0'", "b"), ("0", "b"),
     ("P()", "u"), ("Q()", "u"), ("R()", "u"), ("P", "c"), ("len", "c"), ("fn", "c"), ("(lambda: 0)", "c"),
+    ("G()", "d"),    # attributes are dynamic (__getattr__ proxy); dunder lookups still bypass it
 ]
+# operands whose + / - results are RA (has .p) or RB (has .q) depending on forward / reflected dispatch,
+# including the "right operand is a subclass that overrides the reflected method" priority rule
+RESOPS = ["U1()", "U2()", "U3()", "U4()", "MyInt()", "1", "P()"]
 BINOPS = ["+", "-", "*", "/", "//", "%", "**", "@", "<<", ">>", "&", "|", "^", "<", "<=", ">", ">=", "==", "!=", "in"]
 UNOPS = ["-", "+", "~", "not "]
 ARITH = {"+", "-", "*", "/"}
@@ -76,6 +99,9 @@ def statements(tier):
     yield "%s.%s" % (_paren(a), BOGUS), "attr"
     yield "%s.%s()" % (_paren(a), BOGUS), "attr"
     yield "%s.__class__" % _paren(a), "attr"
+  for a, op, b in itertools.product(RESOPS, ("+", "-"), RESOPS):
+    for attr in ("p", "q"):
+      yield "(%s %s %s).%s" % (a, op, b, attr), "resattr"
   for recv, ms in METHODS.items():
     for m in ms:
       yield "%s.%s" % (_paren(recv), m), "meth"
@@ -147,6 +173,8 @@ def advertised(stmt, cls, exc, msg):
     recv = stmt.split("." + BOGUS)[0].strip("()")
     k = dict(OPERANDS).get(recv) or dict(OPERANDS).get("(%s)" % recv)
     return k in ("b", "u")
+  if exc == "AttributeError" and cls == "resattr" and ("'RA' object" in (msg or "") or "'RB' object" in (msg or "")):
+    return True    # a missing attribute on a user-class instance (the result of the operator)
   if exc == "TypeError" and cls == "call" and "not callable" in (msg or ""):
     return True
   if exc == "TypeError" and cls in ("binop", "unop", "sub"):
